@@ -4,11 +4,13 @@ import (
 	"flag"
 	"fmt"
 	"image"
+	"image/color"
 	"math"
 	"math/rand"
 	"os"
 	"strings"
 
+	"github.com/reactivego/ivg"
 	"github.com/reactivego/ivg/decode"
 	"github.com/reactivego/ivg/raster"
 	"github.com/reactivego/ivg/render"
@@ -55,12 +57,43 @@ type tracedRenderer struct {
 // raster.RasterizerLogger (a pass-through that must not change anything); stdout is discarded.
 var viaRasterLogger bool
 
+// viaCopy makes the next traced Renderers by-value copies of a template Renderer whose rasteriser
+// was set (and which has painted one flat path) before the copy was taken: a Renderer is a plain
+// value between paths, and everything a path needs is established by StartPath.
+var viaCopy bool
+
+// lateRaster: the next traced Renderer gets no rasteriser yet (its trace starts with an empty target);
+// the driver calls retarget after the first Reset (Reset before SetRasterizer on a fresh Renderer).
+var lateRaster bool
+
+// retarget points the same Renderer at another rectangle (between paths), as an "rset" event.
+func (t *tracedRenderer) retarget(nr image.Rectangle) {
+	t.rd.SetRasterizer(t.z, nr)
+	t.w.Emit(map[string]interface{}{"ev": "rset", "rect": [4]int{nr.Min.X, nr.Min.Y, nr.Max.X, nr.Max.Y}})
+}
+
 func newTracedRenderer(w *Writer, id string, rect image.Rectangle) *tracedRenderer {
 	t := &tracedRenderer{rd: &render.Renderer{}, z: &RecRaster{}, w: w}
+	if lateRaster {
+		w.Emit(rendSrc{Ev: "rsrc", ID: id, Rect: [4]int{0, 0, 0, 0}})
+		return t
+	}
 	if viaRasterLogger {
 		t.rd.SetRasterizer(&raster.RasterizerLogger{Rasterizer: t.z}, rect)
 	} else {
 		t.rd.SetRasterizer(t.z, rect)
+	}
+	if viaCopy {
+		tmpl := t.rd
+		pal := ivg.DefaultPalette
+		pal[0] = color.RGBA{0x10, 0x20, 0x30, 0xff}
+		tmpl.Reset(ivg.DefaultViewBox, pal)
+		tmpl.StartPath(0, 1, 2)
+		tmpl.AbsLineTo(3, 4)
+		tmpl.ClosePathEndPath()
+		t.z.Calls = t.z.Calls[:0]
+		cp := *tmpl
+		t.rd = &cp
 	}
 	w.Emit(rendSrc{Ev: "rsrc", ID: id, Rect: [4]int{rect.Min.X, rect.Min.Y, rect.Max.X, rect.Max.Y}})
 	return t
@@ -115,6 +148,53 @@ func latticeCfgs() []rendCfg {
 		{[4]float32{-10, 5, 30, 25}, image.Rect(7, 3, 87, 63)},
 		{[4]float32{-32, -32, 32, 32}, image.Rect(0, 0, 32, 16)},
 		{[4]float32{-16, -16, 16, 16}, image.Rect(-8, -8, 8, 4)},
+	}
+}
+
+// viewBoxes away from the origin (within the model's range |coordinate| <= 512) at large non-dyadic scales
+func offCentreCfgs() []rendCfg {
+	return []rendCfg{
+		{[4]float32{480, 440, 490, 450}, image.Rect(0, 0, 4001, 3001)},
+		{[4]float32{-490, 430, -480, 440}, image.Rect(3, 4, 3+3999, 4+4003)},
+		{[4]float32{470, -500, 486, -484}, image.Rect(0, 0, 6401, 6401)},
+	}
+}
+
+// shrinkShift divides every coordinate of the program by div (staying on the 1/64 lattice) and moves the
+// absolute ones by (dx, dy).
+func shrinkShift(prog []Call, dx, dy float32, div int) {
+	sh := func(f F) float32 { return float32(int(f.float()*64)/div) / 64 }
+	for i := range prog {
+		c := &prog[i]
+		abs := strings.HasPrefix(c.Op, "Abs") || c.Op == "StartPath" || c.Op == "ClosePathAbsMoveTo"
+		switch c.Op {
+		case "Reset", "SetNReg", "SetLOD":
+			continue
+		case "AbsHLineTo":
+			c.F[0] = f32j(sh(c.F[0]) + dx)
+			continue
+		case "AbsVLineTo":
+			c.F[0] = f32j(sh(c.F[0]) + dy)
+			continue
+		case "RelHLineTo", "RelVLineTo":
+			c.F[0] = f32j(sh(c.F[0]))
+			continue
+		case "AbsArcTo", "RelArcTo":
+			c.F[0], c.F[1] = f32j(sh(c.F[0])), f32j(sh(c.F[1]))
+			x, y := sh(c.F[3]), sh(c.F[4])
+			if abs {
+				x, y = x+dx, y+dy
+			}
+			c.F[3], c.F[4] = f32j(x), f32j(y)
+			continue
+		}
+		for j := 0; j+1 < len(c.F); j += 2 {
+			x, y := sh(c.F[j]), sh(c.F[j+1])
+			if abs {
+				x, y = x+dx, y+dy
+			}
+			c.F[j], c.F[j+1] = f32j(x), f32j(y)
+		}
 	}
 }
 
@@ -181,8 +261,32 @@ func driveRend(args []string) error {
 				prog := genProgram(rng, o)
 				prog[0] = resetCall(cfg.vb, defaultPal())
 				// keep coordinates inside a modest range around the viewBox so that pixel values stay on the lattice
+				lateRaster = i%6 == 1
 				t := newTracedRenderer(sh.Next(), fmt.Sprintf("%s/%d", fam, i), cfg.rect)
-				runProg(t, prog)
+				switch {
+				case lateRaster:
+					// Reset first, SetRasterizer afterwards
+					lateRaster = false
+					runProg(t, prog[:1])
+					t.retarget(cfg.rect)
+					runProg(t, prog[1:])
+					stats[fam+".reset_before_setrasterizer"]++
+				case i%6 == 4:
+					// the same Renderer pointed at other rectangles between paths, without a Reset
+					k := 0
+					for j, c := range prog {
+						if c.Op == "ClosePathEndPath" && j+1 < len(prog) {
+							runProg(t, prog[k:j+1])
+							k = j + 1
+							others := append(latticeCfgs(), approxCfgs()...)
+							t.retarget(others[rng.Intn(len(others))].rect)
+							stats[fam+".retargets"]++
+						}
+					}
+					runProg(t, prog[k:])
+				default:
+					runProg(t, prog)
+				}
 				stats[fam+".programs"]++
 				stats[fam+".calls"] += t.n
 				if viaRasterLogger {
@@ -191,6 +295,19 @@ func driveRend(args []string) error {
 			}
 			viaRasterLogger = false
 			if fam == "geometry" {
+				// viewBoxes far from the origin under a large non-dyadic scale: the programs are shrunk and moved next to
+				// the viewBox, so scale * coordinate is large while scale * (coordinate - viewBox minimum) is not
+				for i := 0; i < *n/4+2; i++ {
+					oc := offCentreCfgs()
+					cfg := oc[i%len(oc)]
+					prog := genProgram(rng, &progOpts{maxPaths: 2, maxRun: 3, lattice: true})
+					prog[0] = resetCall(cfg.vb, defaultPal())
+					shrinkShift(prog, cfg.vb[0], cfg.vb[1], 32)
+					t := newTracedRenderer(sh.Next(), fmt.Sprintf("offcentre/%d", i), cfg.rect)
+					runProg(t, prog)
+					stats["geometry.offcentre_programs"]++
+					stats["geometry.calls"] += t.n
+				}
 				// all ordered pairs of verbs (smooth-curve memory across kinds), in two configurations
 				for ci, cfg := range []rendCfg{cfgs[0], cfgs[7]} {
 					for a := 0; a < 16; a++ {
@@ -217,7 +334,12 @@ func driveRend(args []string) error {
 					rect = cfg.rect
 				}
 				prog := genVMProgram(rng, cfg.vb, rect.Dy())
+				viaCopy = i%7 == 3
 				t := newTracedRenderer(sh.Next(), fmt.Sprintf("vm/%d", i), rect)
+				if viaCopy {
+					stats["vm.copied_renderer"]++
+				}
+				viaCopy = false
 				runProg(t, prog)
 				stats["vm.programs"]++
 				stats["vm.calls"] += t.n
@@ -278,8 +400,7 @@ func driveRend(args []string) error {
 					if i%8 >= 6 {
 						nr = image.Rect(nr.Min.X, nr.Min.Y, nr.Min.X+2*cfg.rect.Dx(), nr.Min.Y+2*cfg.rect.Dy())
 					}
-					t.rd.SetRasterizer(t.z, nr)
-					t.w.Emit(map[string]interface{}{"ev": "rset", "rect": [4]int{nr.Min.X, nr.Min.Y, nr.Max.X, nr.Max.Y}})
+					t.retarget(nr)
 					cfg.rect = nr
 				}
 				var b []Call
@@ -298,9 +419,38 @@ func driveRend(args []string) error {
 							vbB[k] /= 2
 						}
 					}
+					if i%12 == 7 || i%12 == 11 {
+						// a viewBox without width or without height (the decoder accepts min = max): whatever a Renderer
+						// does with it, a reused one does the same as a fresh one
+						if i%12 == 7 {
+							vbB[2] = vbB[0]
+						} else {
+							vbB[3] = vbB[1]
+						}
+						stats["reuse.degenerate_viewbox"]++
+					}
 					b[0] = resetCall(vbB, defaultPal())
 				}
+				n0 := len(t.z.Calls)
+				t.trim = false
 				runProg(t, b)
+				// B alone on a fresh Renderer and a fresh rasteriser: the same rasteriser activity, bit for bit
+				{
+					fz := &RecRaster{}
+					var fr render.Renderer
+					fr.SetRasterizer(fz, cfg.rect)
+					for k := range b {
+						switch b[k].Op {
+						case "SetHiRes", "LOD", "Bytes", "CSel", "NSel":
+							continue
+						}
+						c := b[k]
+						apply(&fr, &c)
+					}
+					t.w.Emit(map[string]interface{}{"ev": "same", "what": "rasteriser log of B on a reused Renderer vs on a fresh one",
+						"a": rasterDigest(t.z.Calls[n0:]), "b": rasterDigest(fz.Calls)})
+					stats["reuse.fresh_compared"]++
+				}
 				stats["reuse.programs"]++
 				stats["reuse.calls"] += t.n
 			}
@@ -388,6 +538,15 @@ func genVMProgram(r *rand.Rand, vb [4]float32, height int) []Call {
 					nn := mkCall("SetNReg", float32(off)/120)
 					if r.Intn(10) == 0 {
 						nn = mkCall("SetNReg", float32(off)/64)
+					}
+					if s == 0 && r.Intn(4) == 0 {
+						// the smallest legal first offset, in both spellings of zero
+						off = 0
+						nn = mkCall("SetNReg", []float32{0, float32(math.Copysign(0, -1))}[r.Intn(2)])
+					}
+					if s == ns-1 && r.Intn(6) == 0 && off < 120 {
+						off = 120
+						nn = mkCall("SetNReg", 1) // the largest legal last offset
 					}
 					nn.Incr = 1
 					prog = append(prog, cc, nn)
@@ -541,6 +700,27 @@ func driveEllipses(sh *Shards, n int, stats map[string]int) {
 			crx, cry = rx64/2, ry64/2
 			hint.Scaled = 1
 			large = rng.Intn(2) == 1
+		}
+		if count%9 == 8 {
+			// an almost closed ring: end point one or two lattice steps from the start (distinct points), so
+			// that the flags select either a sliver or nearly the whole ellipse; axis-aligned rotation, radii >= 16
+			phi = ratAngles[5*rng.Intn(4)]
+			rx64 = 1024 + 64*rng.Intn(17)
+			ry64 = 1024 + 64*rng.Intn(17)
+			hint = &arcHint{C: [2]int{cx64, cy64}, Cs: phi, Scaled: 0}
+			crx, cry = rx64, ry64
+			x1, y1 = pt(ratAngles[0])
+			ey := []int{1, -1, 2, -2}[rng.Intn(4)]
+			x2, y2 = x1-phi[1]*ey/phi[2], y1+phi[0]*ey/phi[2]
+			ext = 0.01
+			if ey < 0 {
+				ext = 359.99
+			}
+			if !sweep {
+				ext = 360 - ext
+			}
+			large = ext > 180
+			stats["ellipses.rings"]++
 		}
 		rel := count%2 == 1
 		t := newTracedRenderer(sh.Next(), fmt.Sprintf("ellipse/%d", count), cfg.rect)
